@@ -151,6 +151,19 @@ def history(ctx, seed):
             X, _ = gen_data(rng, n, p, ["mean_changes", "collective", "spikes", "noise", "small_alphabet"][
                 int(rng.integers(5))])
             datasets.append(_frame(X, ik))
+    pristine_frames = [d.copy(deep=True) for d in datasets]
+    pristine = [d.to_numpy().tobytes() for d in datasets]
+
+    def arg_of(D):
+        """The caller's own object in half of the calls (a result cached by object identity or an
+        in-place modification only shows then), a private copy otherwise; arrays sometimes."""
+        u = rng.random()
+        if u < 0.45:
+            return D
+        if u < 0.6 and isinstance(D.index, pd.RangeIndex):
+            return D.to_numpy()  # a view of the caller's block
+        return D.copy(deep=True)
+
     # ---- pool -----------------------------------------------------------------------------------
     pool = []
     shared_cost = build(S("L2Cost", param=None))
@@ -165,6 +178,13 @@ def history(ctx, seed):
             spec, _ = make_scorer(rng, name, 1)
             if "nd" in str(spec):
                 spec, _ = make_scorer(rng, "L2Cost[optim]", 1)
+            if rng.random() < 0.25:
+                # fixed-parameter costs with a NON-zero mean (scalars broadcast over any p)
+                m_, v_ = round(float(rng.normal(0, 2)), 2) or 0.5, float(rng.choice([0.5, 1.0, 2.0]))
+                spec = [S("GaussianCovCost", param={"tuple": [m_, v_]}),
+                        S("GaussianVarCost", param={"tuple": [m_, v_]}), S("L2Cost", param=m_),
+                        S("Saving", baseline_cost=S("GaussianCovCost", param={"tuple": [m_, v_]}))][
+                    int(rng.integers(4))]
             o = Obj(spec, build(spec), "scorer")
         elif r < 0.45:
             # detectors sharing ONE cost instance
@@ -193,6 +213,11 @@ def history(ctx, seed):
                 spec["kw"]["collective_saving"] = S("L2Cost", param=round(float(rng.normal()), 2))
                 if rng.random() < 0.5:
                     spec["kw"]["point_saving"] = S("L2Cost", param=0.0)
+                if which == "CAPA" and rng.random() < 0.3:
+                    spec["kw"]["collective_saving"] = S("GaussianCovCost", param={"tuple": [
+                        round(float(rng.normal(0, 2)), 2) or 0.5, 1.0]})
+                    spec["kw"]["min_segment_length"] = max(spec["kw"]["min_segment_length"], 4)
+                    spec["kw"]["max_segment_length"] = max(spec["kw"]["max_segment_length"], 4)
             if "GaussianCovCost" in short(spec):
                 spec, _, _ = random_detector(rng, True, 3, which="PELT")
             if spec["cls"] == "CircularBinarySegmentation":
@@ -207,15 +232,25 @@ def history(ctx, seed):
     ev = 0
     log = []
     for step in range(nops):
+        # contract K3 is evaluated on every public call (fit, update, evaluate, ... included): hits of
+        # the previous operation are turned into violations before the next one starts
+        for h in I.drain():
+            if h["contract"] == "K3":
+                ctx.violation("contract-K3", "input-or-params-modified", f"history {seed} step {step - 1}: "
+                              f"{h['cls']}: {h['message']}", {"seed": seed, "step": step - 1})
         o = pool[int(rng.integers(len(pool)))]
         D = datasets[int(rng.integers(len(datasets)))]
+        if any(D.to_numpy().tobytes() != d0 for D, d0 in zip(datasets, pristine)):
+            ctx.violation("contract-K3", "dataset-modified", f"history {seed} before step {step}: a dataset "
+                          f"held by the caller was modified by an earlier call", {"seed": seed, "step": step})
+            for i_, b_ in enumerate(pristine_frames):
+                datasets[i_] = b_.copy(deep=True)
         dd = I.data_digest(D)
         r = rng.random()
-        I.drain()
         if o.kind == "scorer":
             if r < 0.4 or o.train is None:
                 op = "fit"
-                st, _ = call(o.obj, "fit", D.copy(deep=True))
+                st, _ = call(o.obj, "fit", arg_of(D))
                 if st == "ok":
                     o.train = D
                 log.append((step, short(o.spec)[:40], "fit", D.shape, st))
@@ -258,7 +293,7 @@ def history(ctx, seed):
             o.last_data = dd
         else:
             if r < 0.22 or (o.train is None and r < 0.6):
-                st, _ = call(o.obj, "fit", D.copy(deep=True))
+                st, _ = call(o.obj, "fit", arg_of(D))
                 if st == "ok":
                     o.train = D
                     o.index_kind = "datetime" if isinstance(D.index, pd.DatetimeIndex) else "range0"
@@ -325,7 +360,7 @@ def history(ctx, seed):
             else:
                 op = ["predict", "transform", "transform_scores", "scores_table", "fit_predict",
                       "fit_transform"][int(rng.integers(6))]
-                arg = D.copy(deep=True)
+                arg = D if rng.random() < 0.5 else D.copy(deep=True)
                 if o.spec["cls"] == "StatThresholdAnomaliser" and arg.shape[1] > 1:
                     arg = arg.iloc[:, [0]]
                 if op in ("fit_predict", "fit_transform"):
